@@ -165,7 +165,7 @@ fn gen_load(rng: &mut Prng, l: &mut Vec<String>, hot_only: bool) {
     let mode = if hot_only { "hot" } else { *rng.pick(&["hot", "hot", "nohot-ctor", "nohot-src"]) };
     l.push(format!("cfg {fe} {mode}"));
     l.push("family load".into());
-    gen_source(rng, l, true);
+    gen_source(rng, l, true, false);
     let (pt, pid) = match rng.below(10) {
         0 => (*rng.pick(&["D2", "R2", "R3"]), *rng.pick(&["", "d"])),
         1 => (*rng.pick(&["M31", "M20", "M41", "M30"]), *rng.pick(IDS)),
